@@ -197,6 +197,8 @@ func verifC14CatchFrom(n, L int) {
 	verifC14Run(s, n, L, true, matched, 0)
 }
 
+func VerifC14_From2_L4() { verifC14CatchFrom(2, 4) }
+func VerifC14_From2_L5() { verifC14CatchFrom(2, 5) }
 func VerifC14_From3_L2() { verifC14CatchFrom(3, 2) }
 func VerifC14_From3_L3() { verifC14CatchFrom(3, 3) }
 func VerifC14_From3_L4() { verifC14CatchFrom(3, 4) }
